@@ -62,9 +62,11 @@ def zone_year_worker(args):
     logging.disable(logging.CRITICAL)
     set_tz(zone)
     import eascheduler.helpers.dst_param as dp
-    whenever._patch_time_frozen(SystemDateTime(year, 7, 1, 12).instant())
+    # the library is imported in the year before and used in `year`: "the current calendar year" is the year of the call
+    whenever._patch_time_frozen(SystemDateTime(year - 1, 12, 20, 12).instant())
     try:
         importlib.reload(dp)
+        whenever._patch_time_frozen(SystemDateTime(year, 7, 1, 12).instant())
         out = {}
         for mode, (f, b) in (('none', (None, None)), ('fwd', ('skip', None)), ('bwd', (None, 'twice'))):
             res = []
